@@ -372,9 +372,30 @@ def main():
         stale = []
         for op in range(25):
             out["history_ops"] += 1
-            k = rng.randrange(9)
+            k = rng.randrange(10)
             try:
-                if k == 0:
+                if k == 9:
+                    # a result that is kept, a list that receives the split of one of its morphemes, then another analysis
+                    # (or a lookup) into that list: the kept result reports what it reported when it was returned
+                    kept = d.create(mode=SplitMode.C).tokenize(rng.choice(texts))
+                    snap = [(m.surface(), m.begin(), m.end(), m.word_id()) for m in kept]
+                    if len(kept):
+                        sub = kept[rng.randrange(len(kept))].split(modes[rng.choice("AB")])
+                        if rng.random() < 0.7:
+                            tok.tokenize(rng.choice(texts), out=sub)
+                        else:
+                            d.lookup(rng.choice(texts)[:2], out=sub)
+                        out["kept_result_checks"] = out.get("kept_result_checks", 0) + 1
+                        try:
+                            now = [(m.surface(), m.begin(), m.end(), m.word_id()) for m in kept]
+                        except (KeyboardInterrupt, SystemExit):
+                            raise
+                        except BaseException as ex:  # noqa
+                            now = repr(ex)
+                        if now != snap:
+                            mismatch("history", "a kept result changed after the list holding the split of one of its morphemes received another text: was %r, is %r" % (snap[:4], now[:4] if isinstance(now, list) else now), {})
+                            break
+                elif k == 0:
                     tok.tokenize(rng.choice(texts), mode=modes[rng.choice("ABC")])
                 elif k == 1:
                     r = tok.tokenize(rng.choice(texts), out=reuse)
